@@ -387,11 +387,96 @@ def handlePayload : Handler := fun inp out => do
          note := (if treeAgree then "" else "JSON tree differs; ") ++ decNote,
          sig := if !agree then "C08:payload-model-mismatch" else if !prop then "C08:payload-roundtrip" else "" }
 
+/-! ### end-to-end: the real Store.InsertLog over LeanPG -/
+
+/-- `insertlog`: for every log of the sequence —
+    * `agree`: the memento bytes the REAL `Store.InsertLog` put in the INSERT = the model's
+      memento (= the bytes `ComputeHash` hashes as `data`, tied by `gohash`), the real
+      `ComputeHash` = SHA-256 of the model's `goPreimage`, and the hash LeanPG's trigger
+      stored = SHA-256 of this file's `sqlPreimage` over the bytes actually sent (the two
+      PostgreSQL models agree);
+    * `prop` (C10 end to end, under the modelled PostgreSQL): stored hash = real `ComputeHash`. -/
+def handleInsertLog : Handler := fun inp out => do
+  let logs ← (← arrField inp "logs").mapM logOfJson
+  let steps ← arrField out "steps"
+  let gotPanic := optStrField out "panic"
+  if gotPanic ≠ "" then
+    pure { model := Json.null, agree := false, prop := false, nontrivial := false, tags := ["panic"],
+           note := "real code panicked: " ++ gotPanic, sig := "C10:insertlog-panic" }
+  else
+  let mut prev : PrevHash := none
+  let mut agree := true
+  let mut prop := true
+  let mut notes : List String := []
+  let mut sig := ""
+  let mut tags : List String := []
+  let mut inserted : Nat := 0
+  for (log, st) in logs.zip steps do
+    let err := optStrField st "err"
+    if err ≠ "" then
+      tags := ("insert-error:" ++ (err.take 40).toString) :: tags
+      if (err.splitOn "idempotency").length > 1 then continue
+      agree := false; notes := ("insert failed: " ++ err) :: notes; sig := "C10:insertlog-error"
+      break
+    let sent ← unhex (optStrField st "sentMemento")
+    let stored := optStrField st "storedHash"
+    let goHash := optStrField st "goHash"
+    let modelMemento := match mementoBytes log.payload with | .ok m => m | .error _ => []
+    let modelGo := match goPreimage log prev with | .ok b => Sha256.hex (Sha256.sha256 b) | .error e => errStr e
+    if sent ≠ modelMemento then
+      prop := false; notes := "memento sent by InsertLog ≠ json.Marshal(GetMemento()) (the bytes ComputeHash hashes)" :: notes
+      if sig = "" then sig := "C10:insertlog-memento"
+    if goHash ≠ modelGo then
+      agree := false; notes := "ComputeHash ≠ model goPreimage" :: notes
+      if sig = "" then sig := "C10:go-model-mismatch"
+    if stored ≠ goHash then
+      prop := false; notes := s!"stored hash {stored} ≠ ComputeHash {goHash}" :: notes
+      if sig = "" then sig := "C10:stored-hash-mismatch"
+    -- cross-check of the two PostgreSQL models on the bytes actually sent
+    let row : Except HashErr Row := rowOfLog bunTags b!"l" 2 log
+    let sqlHash := match row with
+      | .ok r => (match triggerPreimage (prevTable b!"l" 1 prev) { r with memento := .bytea sent } with
+        | .ok b => Sha256.hex (Sha256.sha256 b)
+        | .error e => errStr e)
+      | .error e => errStr e
+    if sqlHash ≠ stored then
+      agree := false; notes := s!"LeanPG stored {stored}, PgEval model gives {sqlHash}" :: notes
+      if sig = "" then sig := "C10:pg-models-disagree"
+    inserted := inserted + 1
+    prev := some (← unhex stored)
+  pure { model := Json.mkObj [("inserted", inserted)], agree, prop, propModel := prop,
+         nontrivial := inserted ≥ 1,
+         tags := tags ++ [if logs.length ≤ 1 then "len:1" else "len:2-3"] ++ (logs.map fun l => "payload:" ++ payloadKind l.payload).eraseDups,
+         note := "; ".intercalate notes.reverse, sig }
+
+/-- `importhash`: real controller writes → real Export → real Import into a fresh ledger.
+    `prop`: the import (which compares the hash computed by the target's trigger with the
+    exported one) accepts every log and both chains are identical. -/
+def handleImportHash : Handler := fun inp out => do
+  let ops ← arrField inp "ops"
+  let gotPanic := optStrField out "panic"
+  let importErr := optStrField out "importErr"
+  let src ← strArrField out "srcHashes"
+  let dst ← strArrField out "dstHashes"
+  let rec ← (← arrField out "goRecompute").mapM (·.getBool?)
+  let opErrs ← strArrField out "opErrs"
+  let okOps := (opErrs.filter (· = "")).length
+  let prop := gotPanic = "" && importErr = "" && src = dst && src.length = okOps
+  let goOk := rec.all id
+  pure { model := Json.mkObj [("logs", okOps)], agree := true, prop := prop && goOk, propModel := true,
+         nontrivial := okOps ≥ 2,
+         tags := [s!"ops:{ops.length}", if okOps = ops.length then "all-ops-ok" else "some-op-rejected"],
+         note := if !prop then "import rejected or chains differ: " ++ importErr ++ gotPanic
+                 else if !goOk then "ComputeHash over the exported logs does not reproduce an exported hash" else "",
+         sig := if !prop then "C10:import-rejects-exported-logs" else if !goOk then "C10:export-not-recomputable" else "" }
+
 def hashHandlers : List (String × Handler) := [
   ("sha", handleSha),
   ("gohash", handleGoHash),
   ("chain", handleChain),
-  ("payload", handlePayload)
+  ("payload", handlePayload),
+  ("insertlog", handleInsertLog),
+  ("importhash", handleImportHash)
 ]
 
 end Ledger.Driver
